@@ -602,6 +602,10 @@ class CallMixin:
     # ---------------------------------------------------------------- comprehensions
     def comprehension(self, node, p: Path, kind):
         if len(node.generators) != 1:
+            if self.lenient and all(self.is_pure_elt(x) for g_ in node.generators for x in [g_.iter] + list(g_.ifs)) and \
+                    all(self.is_pure_elt(x) for x in ([node.elt] if kind != "dict" else [node.key, node.value])):
+                # effect obligations: a side-effect-free comprehension over several generators builds an unmodelled container
+                return [(p, VOpaque("comprehension over several generators")), (p.copy(), Exc("AnyException", f"L{node.lineno}:comprehension"))]
             raise Unsupported("comprehension with several generators")
         g = node.generators[0]
         spec, ordinal = self.loop_spec(node, p)
@@ -772,6 +776,9 @@ class CallMixin:
         """Effectful comprehension = a for-loop appending to a fresh list, cut with the contract's invariant.
         The accumulated list is available to invariants as `acc`."""
         if kind not in ("list", "gen"):
+            if self.lenient and all(self.is_pure_elt(x) for x in ([node.elt] if kind != "dict" else [node.key, node.value]) + list(g.ifs)):
+                return [(p, VOpaque(f"{kind} comprehension over modelled values (contents not modelled)")),
+                        (p.copy(), Exc("AnyException", f"L{node.lineno}:comprehension"))]
             raise Unsupported(f"effectful {kind} comprehension")
         ety = (spec.elem if spec is not None and getattr(spec, "elem", None) is not None else None)
         if ety is None and self.lenient:
